@@ -7,6 +7,9 @@
 //
 // case  = <m1> <m2> token*        m = S (Serial) | O (OpenMP)
 // token = A<path>=<json>  both configurations | 1<path>=<json> first | 2<path>=<json> second
+//         dA<path>=<json> / d1.. / d2..         the same property given at DEVICE level: occa::device({mode, kernel: {path: v}})
+//         gA<path>=<json> / g1.. / g2..         ... and in the global occa::settings() ("kernel/<path>"), set before the
+//                                               device is created and removed afterwards
 //         x1=<text> / x2=<text> / xA=<text>     kernel source text (default "k0")
 //         <json>/<text> are percent-encoded (%20 space, %25 %, %0A newline)
 // The key is obtained without compiling, from device::setupKernelInfo (private: opened below), with an
@@ -52,11 +55,20 @@ static occa::device& deviceFor(char m) {
   return devs[m];
 }
 
+typedef std::vector<std::pair<std::string, std::string> > levelProps;   // path, json text
+
 struct config {
   occa::json props;
+  levelProps device, settings;
   std::string source;
   config() : props(occa::json::object_), source("k0") {}
 };
+
+static void applyLevel(levelProps &l, const std::string &body) {
+  size_t e = body.find('=');
+  if (e == std::string::npos) return;
+  l.push_back(std::make_pair(body.substr(0, e), decode(body.substr(e + 1))));
+}
 
 static void apply(config &c, const std::string &body) {
   // body = <path>=<json>
@@ -76,6 +88,12 @@ static bool parseCase(const std::vector<std::string> &toks, config &c1, config &
       if (t[1] == '2' || t[1] == 'A') c2.source = v;
       continue;
     }
+    if (t[0] == 'd' || t[0] == 'g') {
+      const std::string lbody = t.substr(2);
+      if (t[1] == '1' || t[1] == 'A') applyLevel(t[0] == 'd' ? c1.device : c1.settings, lbody);
+      if (t[1] == '2' || t[1] == 'A') applyLevel(t[0] == 'd' ? c2.device : c2.settings, lbody);
+      continue;
+    }
     const std::string body = t.substr(1);
     if (t[0] == 'A' || t[0] == '1') apply(c1, body);
     if (t[0] == 'A' || t[0] == '2') apply(c2, body);
@@ -83,10 +101,32 @@ static bool parseCase(const std::vector<std::string> &toks, config &c1, config &
   return true;
 }
 
+// a device whose kernel properties come (also) from occa::settings() and from the device properties
+static occa::device deviceWithLevels(char m, const config &c) {
+  for (const auto &pv : c.settings) {
+    occa::settings()["kernel/" + pv.first] = occa::json::parse(pv.second);
+  }
+  occa::json dprops(occa::json::object_);
+  dprops["mode"] = (m == 'O' ? "OpenMP" : "Serial");
+  for (const auto &pv : c.device) {
+    dprops["kernel/" + pv.first] = occa::json::parse(pv.second);
+  }
+  occa::device dev(dprops);
+  if (c.settings.size()) {
+    occa::settings().remove("kernel");
+  }
+  return dev;
+}
+
 static occa::hash_t keyOf(char m, const config &c) {
   occa::json kernelProps;
   occa::hash_t key;
-  deviceFor(m).setupKernelInfo(c.props, occa::hash(c.source), kernelProps, key);
+  if (c.device.size() || c.settings.size()) {
+    occa::device dev = deviceWithLevels(m, c);
+    dev.setupKernelInfo(c.props, occa::hash(c.source), kernelProps, key);
+  } else {
+    deviceFor(m).setupKernelInfo(c.props, occa::hash(c.source), kernelProps, key);
+  }
   return key;
 }
 
@@ -100,7 +140,7 @@ int main(int argc, char **argv) {
       std::vector<std::string> toks;
       for (int i = 5; i < argc; ++i) toks.push_back(argv[i]);
       parseCase(toks, c, unused, 0);
-      occa::device dev({{"mode", std::string(argv[2]) == "O" ? "OpenMP" : "Serial"}});
+      occa::device dev = deviceWithLevels(argv[2][0], c);
       occa::kernel k;
       if (std::string(argv[3]) == "-") {
         k = dev.buildKernelFromString(c.source, argv[4], c.props);
